@@ -94,6 +94,350 @@ theorem service_constants (b p o : List Ext) (a : AttrM) :
   · rintro ⟨k, v, hg, hv, rfl⟩
     exact ⟨k, v, (mem_iff_aget_of_nodup _ (operationConfig_nodup b p o) k v).2 hg, hv, rfl⟩
 
+/-- **service_fields**: whenever the classes of a request-response operation can be
+built, the last class yielded is the service class: tagged `BindingOperation`, named
+`{tns}<portType>_<operation>`, carrying the string constants of the configuration
+(see `service_constants`, `config_precedence`) followed by exactly `input` and
+`output`, which reference the two envelope classes `{tns}<portType>_<operation>_input`
+and `…_output`. -/
+theorem service_fields (d : Definitions) (bo : BOperation) (po : PtOperation) (cfg : Dict) (pt : Str)
+    (cs : List Cls) (bmi bmo : BMessage)
+    (hu : wfUri d.targetNamespace = true) (hpt : wfLocal pt = true)
+    (hi : bo.input = some bmi) (ho : bo.output = some bmo)
+    (h : mapBindingOperation d bo po cfg pt = .ok cs) :
+    ∃ svc envIn envOut, cs.getLast? = some svc ∧ envIn ∈ cs ∧ envOut ∈ cs ∧
+      svc.tag = ws!"BindingOperation" ∧
+      buildQName d.targetNamespace (joinU pt bo.name) = .ok svc.qname ∧
+      buildQName d.targetNamespace (joinU (joinU pt bo.name) ws!"input") = .ok envIn.qname ∧
+      buildQName d.targetNamespace (joinU (joinU pt bo.name) ws!"output") = .ok envOut.qname ∧
+      envIn.metaName = some ws!"Envelope" ∧ envOut.metaName = some ws!"Envelope" ∧
+      envIn.ns = operationNamespace cfg ∧ envOut.ns = operationNamespace cfg ∧
+      svc.attrs = constAttrs cfg ++
+        [buildAttr ws!"input" envIn.qname (ref := some envIn.qname),
+         buildAttr ws!"output" envOut.qname (ref := some envOut.qname)] := by
+  obtain ⟨pairs, q, hm, hq, rfl⟩ := mapBindingOperation_shape d bo po cfg pt cs h
+  obtain ⟨li, lo, rfl, h1, h2⟩ := mapMessages_shape _ _ _ _ _ _ _ hm
+  rw [hi] at h1
+  rw [ho] at h2
+  obtain ⟨ri, rfl, hri⟩ := h1
+  obtain ⟨ro, rfl, hro⟩ := h2
+  obtain ⟨qi, mi, ni⟩ := mapMessage_env _ _ _ _ _ _ _ _ _ _ _ hri
+  obtain ⟨qo, mo, no⟩ := mapMessage_env _ _ _ _ _ _ _ _ _ _ _ hro
+  have hname : wfLocal (joinU pt bo.name) = true := wfLocal_joinU _ _ hpt
+  refine ⟨serviceClass q bo cfg ([ri] ++ [ro]), ri.2, ro.2, by simp, ?_, ?_,
+    (protocol_constants.2.2.2.2.2.2.2.2.2.1), hq, qi, qo, mi, mo, ni, no, ?_⟩
+  · obtain ⟨m, e⟩ := ri
+    cases m <;> simp [flattenPair]
+  · obtain ⟨m, e⟩ := ro
+    cases m <;> simp [flattenPair]
+  · simp only [serviceClass, Cls.attrs, List.cons_append, List.nil_append, List.map_cons, List.map_nil]
+    rw [refAttr_of_qname d.targetNamespace _ ws!"input" ri.2 hu hname (by decide) qi,
+      refAttr_of_qname d.targetNamespace _ ws!"output" ro.2 hu hname (by decide) qo]
+
+example : wfUri (some ws!"http://tempuri.org/") = true ∧ wfLocal ws!"CalculatorSoap" = true := by decide
+
+/-! ## Envelope classes: header and body entries -/
+
+/-- **part_entry** (decision table of `build_parts_attributes` for one part given by
+`element=` or `type=`): an element part becomes an entry with the element's local
+name, in the element's namespace (looked up in the part's in-scope prefixes); a
+typed part becomes an entry named after the part whose namespace is decided later
+(`##lazy`); whenever the referenced namespace is XML Schema's the entry is a native
+type and unqualified. Entries are single and required. -/
+theorem part_entry (p : Part) (a : Option AttrM) (ht : p.typed = true) (h : partAttr p = .ok a) :
+    ∃ x, a = some x ∧
+      x.name = (if truthy p.element then (splitColon p.ref).2 else p.name) ∧
+      buildQName (aget p.nsMap (splitColon p.ref).1) (splitColon p.ref).2 = .ok x.type ∧
+      x.native = (aget p.nsMap (splitColon p.ref).1 == some ws!"http://www.w3.org/2001/XMLSchema") ∧
+      x.ns = (if aget p.nsMap (splitColon p.ref).1 == some ws!"http://www.w3.org/2001/XMLSchema" then some []
+              else if truthy p.type then some ws!"##lazy" else aget p.nsMap (splitColon p.ref).1) ∧
+      x.min = none ∧ x.max = none ∧ x.default = none ∧ x.forward = false := by
+  obtain ⟨q, hq, ha⟩ := partAttr_typed p a ht h
+  obtain ⟨_, _, _, _, _, _, h7, _, h9, _⟩ := protocol_constants
+  rw [h7, h9] at ha
+  refine ⟨_, ha, rfl, hq, rfl, ?_, rfl, rfl, rfl, rfl⟩
+  simp only [buildAttr]
+
+/-- **parts_in_order**: the entries built for a list of parts are, in message order,
+one per part given by element or type, with the names WSDL 1.1 prescribes; untyped
+parts are skipped. -/
+theorem parts_in_order (ps : List Part) (as : List AttrM) (h : partsAttrs ps = .ok as) :
+    as.map (·.name) = (ps.filter Part.typed).map Part.wireName :=
+  partsAttrs_names ps as h
+
+/-- **part_selection**: `part="p"` keeps exactly the parts called `p`, `parts="a b"`
+those called `a` or `b`, in message order; no (or an empty) selection keeps all. -/
+theorem part_selection (e : Ext) (parts : List Part) (p : Part) :
+    p ∈ selectParts (selectedNames e) parts ↔
+      p ∈ parts ∧ (selectedNames e = [] ∨ p.name ∈ selectedNames e) := by
+  unfold selectParts
+  cases hs : selectedNames e with
+  | nil => simp
+  | cons a as => simp [List.mem_filter]
+
+/-- **envelope_parts**: the `Envelope` class of a binding message has one inner class
+per distinct (title-cased) extension element name — `Header`, `Body` — referenced by
+a required forward attr without own namespace (so in the envelope namespace); the
+attrs of inner class `key` are, in document order, the contributions of the
+extension elements of that name: for an rpc `soap:body` the wrapper entry, otherwise
+the entries (`part_entry`) of the selected parts (`part_selection`) of the message
+named by the element's `message=` (headers) or by the port type. -/
+theorem envelope_parts (d : Definitions) (bm : BMessage) (pm : PtMessage) (name style : Str)
+    (ns op : Option Str) (env : Cls) (wf : EnvWF d bm name)
+    (h : buildEnvelopeClass d bm pm name style ns op = .ok env) :
+    buildQName d.targetNamespace name = .ok env.qname ∧ env.metaName = some ws!"Envelope" ∧ env.ns = ns ∧
+    (∀ a ∈ env.attrs, a.name ∈ bm.ext.map (fun e => titleA (localName e.qname)) ∧ a.ns = none ∧ a.min = none) ∧
+    ∃ items, extItems d pm style op bm.ext = .ok items ∧
+      items.map (·.cname) = bm.ext.map (fun e => titleA (localName e.qname)) ∧
+      (∀ key, innerAttrs env key = (items.filter (fun i => i.cname == key)).flatMap (·.attrs)) ∧
+      ∀ i ∈ items, ∃ e ∈ bm.ext, i.cname = titleA (localName e.qname) ∧
+        ((style = ws!"rpc" ∧ i.cname = ws!"Body" ∧
+            ∃ q, buildQName (aget pm.nsMap (splitColon pm.message).1) (splitColon pm.message).2 = .ok q ∧
+              i.attrs = [buildAttr (op.getD (splitColon pm.message).2) q (ns := aget e.attrs ws!"namespace")]) ∨
+         (¬ (style = ws!"rpc" ∧ i.cname = ws!"Body") ∧
+            ∃ m, findMessage d (extMessageName pm.message e) = .ok m ∧
+              partsAttrs (selectParts (selectedNames e) m.parts) = .ok i.attrs)) := by
+  obtain ⟨h1, h2, h3⟩ := buildEnvelopeClass_head _ _ _ _ _ _ _ _ h
+  obtain ⟨items, hi, hk⟩ := buildEnvelopeClass_innerAttrs _ _ _ _ _ _ _ _ wf h
+  refine ⟨h1, h2, h3, buildEnvelopeClass_attrs _ _ _ _ _ _ _ _ h, items, hi,
+    extItems_cnames _ _ _ _ _ _ hi, hk, ?_⟩
+  intro i him
+  obtain ⟨e, he, hee⟩ := extItems_mem _ _ _ _ _ _ hi i him
+  have hc := extItem_cname _ _ _ _ _ _ hee
+  refine ⟨e, he, hc, ?_⟩
+  by_cases hrb : style = ws!"rpc" ∧ i.cname = ws!"Body"
+  · left
+    obtain ⟨hs, hb⟩ := hrb
+    subst hs
+    obtain ⟨q, hq, _, ha⟩ := extItem_rpc_body d pm op e i (hc ▸ hb) hee
+    exact ⟨rfl, hb, q, hq, ha⟩
+  · right
+    refine ⟨hrb, ?_⟩
+    obtain ⟨m, hm, _, hp⟩ := extItem_parts d pm style op e i (by rw [← hc]; exact hrb) hee
+    exact ⟨m, hm, hp⟩
+
+example : EnvWF ⟨some ws!"urn:t", [], [], [], []⟩
+    ⟨[⟨ws!"{http://schemas.xmlsoap.org/wsdl/soap/}header", []⟩, ⟨ws!"{http://schemas.xmlsoap.org/wsdl/soap/}body", []⟩], [], ws!"l"⟩
+    ws!"Pt_op_input" :=
+  ⟨by decide, by decide, by decide⟩
+
+/-- **document_body_entries**: with a single `soap:body` and document style, the
+`Body` class has, in message order, one entry per selected part of the port type
+message, named as WSDL 1.1 3.5 prescribes (element local name / part name). -/
+theorem document_body_entries (d : Definitions) (bm : BMessage) (pm : PtMessage) (name style : Str)
+    (ns op : Option Str) (env : Cls) (e : Ext) (wf : EnvWF d bm name)
+    (hstyle : style ≠ ws!"rpc")
+    (hone : bm.ext.filter (fun x => titleA (localName x.qname) == ws!"Body") = [e])
+    (h : buildEnvelopeClass d bm pm name style ns op = .ok env) :
+    ∃ m, findMessage d (extMessageName pm.message e) = .ok m ∧
+      (innerAttrs env ws!"Body").map (·.name)
+        = ((selectParts (selectedNames e) m.parts).filter Part.typed).map Part.wireName := by
+  obtain ⟨items, hi, hk⟩ := buildEnvelopeClass_innerAttrs _ _ _ _ _ _ _ _ wf h
+  have hf := extItems_filter _ _ _ _ _ _ ws!"Body" hi
+  rw [hone] at hf
+  simp only [extItems, bind, Except.bind, pure, Except.pure] at hf
+  cases he : extItem d pm style op e with
+  | error x => simp [he] at hf
+  | ok i =>
+    simp only [he, Except.ok.injEq] at hf
+    obtain ⟨m, hm, _, hp⟩ := extItem_parts d pm style op e i (fun hh => hstyle hh.1) he
+    refine ⟨m, hm, ?_⟩
+    rw [hk, ← hf]
+    simp only [List.flatMap_cons, List.flatMap_nil, List.append_nil]
+    exact partsAttrs_names _ _ hp
+
+/-- **rpc_input_wrapper**: for rpc style the request `Body` holds the wrapper only: an
+entry named after the operation, in the namespace given by `soap:body namespace=`. -/
+theorem rpc_input_wrapper (d : Definitions) (bo : BOperation) (bm : BMessage) (pm : PtMessage) (name : Str)
+    (ns : Option Str) (env : Cls) (wf : EnvWF d bm name)
+    (h : buildEnvelopeClass d bm pm name ws!"rpc" ns (some bo.name) = .ok env) :
+    ∀ a ∈ innerAttrs env ws!"Body", a.name = bo.name ∧ a.min = none ∧
+      ∃ e ∈ bm.ext, titleA (localName e.qname) = ws!"Body" ∧ a.ns = aget e.attrs ws!"namespace" := by
+  intro a ha
+  exact rpc_body_entries d bm pm name ns (some bo.name) env wf h a ha
+
+/-- the output direction of one operation as `map_binding_operation_messages` maps it -/
+def outputOf (d : Definitions) (_bo : BOperation) (po : PtOperation) (name style : Str) (ns : Option Str)
+    (bm : BMessage) : Except Err (Option Cls × Cls) :=
+  mapMessage d po name style ns ws!"output" bm po.output none true
+
+/-- `outputOf` is what `mapMessages` runs for the output (and `some bo.name` for the input) -/
+theorem outputOf_is_mapped (d : Definitions) (bo : BOperation) (po : PtOperation) (name style : Str)
+    (ns : Option Str) (pairs : List (Option Cls × Cls)) (bm : BMessage) (ho : bo.output = some bm)
+    (h : mapMessages d bo po name style ns = .ok pairs) :
+    ∃ r, outputOf d bo po name style ns bm = .ok r ∧ pairs.getLast? = some r := by
+  obtain ⟨li, lo, rfl, _, h2⟩ := mapMessages_shape _ _ _ _ _ _ _ h
+  rw [ho] at h2
+  obtain ⟨r, rfl, hr⟩ := h2
+  exact ⟨r, hr, by simp⟩
+
+/-- full-strength statement (WSDL 1.1 3.5 / WS-I BP R2729): the rpc response
+wrapper is named after the operation (`op` or `opResponse`) -/
+def RpcOutputWrapperNamedAfterOperation : Prop :=
+  ∀ (d : Definitions) (bo : BOperation) (po : PtOperation) (name : Str) (ns : Option Str) (bm : BMessage)
+    (r : Option Cls × Cls), outputOf d bo po name ws!"rpc" ns bm = .ok r →
+    ∀ n ∈ bodyEntryNames r.2, n = bo.name ∨ n = bo.name ++ ws!"Response"
+
+namespace Witness
+def msg : Message := ⟨ws!"getAOut", [⟨ws!"return", some ws!"xsd:int", none, [(some ws!"xsd", ws!"http://www.w3.org/2001/XMLSchema")]⟩], [(some ws!"tns", ws!"urn:t")]⟩
+def hdr : Message := ⟨ws!"Hdr", [⟨ws!"h", none, some ws!"tns:H", [(some ws!"tns", ws!"urn:t")]⟩], []⟩
+def defs : Definitions := ⟨some ws!"urn:t", [msg, hdr], [], [], []⟩
+def body : Ext := ⟨ws!"{http://schemas.xmlsoap.org/wsdl/soap/}body", [(ws!"use", ws!"literal"), (ws!"namespace", ws!"urn:t")]⟩
+def header : Ext := ⟨ws!"{http://schemas.xmlsoap.org/wsdl/soap/}header", [(ws!"message", ws!"{urn:t}Hdr"), (ws!"part", ws!"h")]⟩
+def pm : PtMessage := ⟨ws!"tns:getAOut", [(some ws!"tns", ws!"urn:t")], ws!"l"⟩
+def po : PtOperation := ⟨ws!"getA", some pm, some pm, []⟩
+def bo (exts : List Ext) : BOperation := ⟨ws!"getA", [], some ⟨exts, [], ws!"l"⟩, some ⟨exts, [], ws!"l"⟩, [], ws!"l"⟩
+def envNs : Option Str := some ws!"http://schemas.xmlsoap.org/soap/envelope/"
+
+theorem rpc_output : (outputOf defs (bo [body]) po ws!"Pt_getA" ws!"rpc" envNs ⟨[body], [], ws!"l"⟩).toOption.map
+    (fun r => bodyEntryNames r.2) = some [ws!"getAOut"] := by decide +kernel
+
+theorem doc_output_with_header :
+    (outputOf defs (bo [header, body]) po ws!"Pt_getA" ws!"document" envNs ⟨[header, body], [], ws!"l"⟩).toOption.map
+      (fun r => r.2.attrs.map (fun a => (a.name, a.min))) = some [(ws!"Header", none), (ws!"Body", none)] := by
+  decide +kernel
+end Witness
+
+/-- **finding C17-rpc-output-wrapper-name**: operation `getA` with output message
+`getAOut` gets the response wrapper `getAOut`. -/
+theorem rpc_output_wrapper_not_operation : ¬ RpcOutputWrapperNamedAfterOperation := by
+  intro h
+  have hw := Witness.rpc_output
+  cases hr : outputOf Witness.defs (Witness.bo [Witness.body]) Witness.po ws!"Pt_getA" ws!"rpc" Witness.envNs
+      ⟨[Witness.body], [], ws!"l"⟩ with
+  | error e => rw [hr] at hw; simp [Except.toOption] at hw
+  | ok r =>
+    rw [hr] at hw
+    simp only [Except.toOption, Option.map_some, Option.some.injEq] at hw
+    have := h _ _ _ _ _ _ r hr ws!"getAOut" (by rw [hw]; simp)
+    revert this
+    decide
+
+/-- the provable part: the response wrapper is named after the output *message*; so the
+statement holds for definitions that follow the `<operation>Response` naming convention
+for output messages (JAX-WS style). -/
+theorem rpc_output_wrapper_partial (d : Definitions) (bo : BOperation) (po : PtOperation) (name : Str)
+    (ns : Option Str) (bm : BMessage) (pm : PtMessage) (r : Option Cls × Cls)
+    (wf : EnvWF d bm (joinU name ws!"output")) (hpm : po.output = some pm)
+    (hconv : (splitColon pm.message).2 = bo.name ++ ws!"Response")
+    (h : outputOf d bo po name ws!"rpc" ns bm = .ok r) :
+    ∀ n ∈ bodyEntryNames r.2, n = bo.name ∨ n = bo.name ++ ws!"Response" := by
+  unfold outputOf mapMessage at h
+  rw [hpm] at h
+  simp only [bind, Except.bind, pure, Except.pure] at h
+  cases hm : rpcMessageClass d ws!"rpc" pm with
+  | error e => simp [hm] at h
+  | ok mc =>
+    simp only [hm] at h
+    cases he : buildEnvelopeClass d bm pm (joinU name ws!"output") ws!"rpc" ns none with
+    | error e => simp [he] at h
+    | ok env =>
+      simp only [he] at h
+      cases hf : withFault d po true env with
+      | error e => simp [hf] at h
+      | ok env' =>
+        simp only [hf, Except.ok.injEq] at h
+        subst h
+        have hff : buildEnvelopeFault d po env = .ok env' := by simpa [withFault] using hf
+        intro n hn
+        simp only at hn
+        rw [fault_bodyEntryNames d po env env' hff] at hn
+        unfold bodyEntryNames at hn
+        obtain ⟨hn1, _⟩ := List.mem_filter.1 hn
+        obtain ⟨a, ha, rfl⟩ := List.mem_map.1 hn1
+        obtain ⟨hname, _⟩ := rpc_body_entries d bm pm _ ns none env wf he a ha
+        right
+        rw [hname]
+        simpa using hconv
+
+example : (splitColon ws!"tns:getHelloAsStringResponse").2 = ws!"getHelloAsString" ++ ws!"Response" := by decide
+
+/-! ## Faults -/
+
+/-- **fault_shape**: after `build_envelope_fault` the envelope's own attrs are
+unchanged; every entry of `Body` is optional; the last entry is `Fault` in the
+envelope namespace; its class has the four SOAP 1.1 fault children, unqualified,
+`faultcode` and `faultstring` required, `faultactor` and `detail` optional. -/
+theorem fault_shape (d : Definitions) (po : PtOperation) (env env' : Cls)
+    (h : buildEnvelopeFault d po env = .ok env') :
+    env'.attrs = env.attrs ∧
+    (∀ a ∈ innerAttrs env' ws!"Body", a.min = some 0) ∧
+    (∃ fa, (innerAttrs env' ws!"Body").getLast? = some fa ∧ fa.name = ws!"Fault" ∧ fa.ns = env.ns ∧ fa.forward = true) ∧
+    bodyEntryNames env' = bodyEntryNames env ∧
+    ∃ body' fault, findInner env' ws!"Body" = some body' ∧ body'.inner.getLast? = some fault ∧
+      fault.attrs.map (fun a => (a.name, a.ns, a.min)) =
+        [(ws!"faultcode", some [], none), (ws!"faultstring", some [], none),
+         (ws!"faultactor", some [], some 0), (ws!"detail", some [], some 0)] := by
+  obtain ⟨h0, body, body', fq, fault, h1, h2, h3, h4, h5⟩ := buildEnvelopeFault_spec _ _ _ _ h
+  refine ⟨h0, ?_, ?_, fault_bodyEntryNames _ _ _ _ h, body', fault, h2, by simp [h4], h5⟩
+  · intro a ha
+    rw [innerAttrs_of_find _ _ _ h2, h3] at ha
+    obtain ⟨b, _, rfl⟩ := List.mem_map.1 ha
+    rfl
+  · refine ⟨setMin0 (buildAttr ws!"Fault" fq (forward := true) (ns := env.ns)), ?_, rfl, rfl, rfl⟩
+    rw [innerAttrs_of_find _ _ _ h2, h3]
+    simp
+
+/-- full-strength statement: a response that carries only a SOAP fault (no
+`soap:Header`) fits the output envelope class — every envelope attr other than
+`Body` is optional -/
+def FaultOnlyResponseFits : Prop :=
+  ∀ (d : Definitions) (bo : BOperation) (po : PtOperation) (name style : Str) (ns : Option Str) (bm : BMessage)
+    (r : Option Cls × Cls), outputOf d bo po name style ns bm = .ok r →
+    ∀ a ∈ r.2.attrs, a.name ≠ ws!"Body" → a.min = some 0
+
+/-- **finding C17-fault-needs-output-header**: an output with a `soap:header` keeps a
+required `Header`. -/
+theorem fault_only_response_does_not_fit : ¬ FaultOnlyResponseFits := by
+  intro h
+  have hw := Witness.doc_output_with_header
+  cases hr : outputOf Witness.defs (Witness.bo [Witness.header, Witness.body]) Witness.po ws!"Pt_getA" ws!"document"
+      Witness.envNs ⟨[Witness.header, Witness.body], [], ws!"l"⟩ with
+  | error e => rw [hr] at hw; simp [Except.toOption] at hw
+  | ok r =>
+    rw [hr] at hw
+    simp only [Except.toOption, Option.map_some, Option.some.injEq] at hw
+    have hmem : (ws!"Header", (none : Option Nat)) ∈ r.2.attrs.map (fun a => (a.name, a.min)) := by
+      rw [hw]; simp
+    obtain ⟨a, ha, hpa⟩ := List.mem_map.1 hmem
+    simp only [Prod.mk.injEq] at hpa
+    have := h _ _ _ _ _ _ _ r hr a ha (by rw [hpa.1]; decide)
+    rw [hpa.2] at this
+    cases this
+
+/-- the provable part: outputs whose binding declares nothing but `soap:body` -/
+theorem fault_only_response_fits_partial (d : Definitions) (bo : BOperation) (po : PtOperation)
+    (name style : Str) (ns : Option Str) (bm : BMessage) (r : Option Cls × Cls)
+    (hb : ∀ e ∈ bm.ext, titleA (localName e.qname) = ws!"Body")
+    (h : outputOf d bo po name style ns bm = .ok r) :
+    ∀ a ∈ r.2.attrs, a.name ≠ ws!"Body" → a.min = some 0 := by
+  unfold outputOf mapMessage at h
+  cases hpm : po.output with
+  | none => simp [hpm] at h
+  | some pm =>
+    simp only [hpm, bind, Except.bind, pure, Except.pure] at h
+    cases hm : rpcMessageClass d style pm with
+    | error e => simp [hm] at h
+    | ok mc =>
+      simp only [hm] at h
+      cases he : buildEnvelopeClass d bm pm (joinU name ws!"output") style ns none with
+      | error e => simp [he] at h
+      | ok env =>
+        simp only [he] at h
+        cases hf : withFault d po true env with
+        | error e => simp [hf] at h
+        | ok env' =>
+          simp only [hf, Except.ok.injEq] at h
+          subst h
+          intro a ha hne
+          simp only at ha
+          rw [(withFault_head _ _ _ _ _ hf).2] at ha
+          obtain ⟨hmem, _⟩ := buildEnvelopeClass_attrs _ _ _ _ _ _ _ _ he a ha
+          obtain ⟨e, hee, hn⟩ := List.mem_map.1 hmem
+          exact absurd (hn ▸ hb e hee) hne
+
+example : ∀ e ∈ [Witness.body], titleA (localName e.qname) = ws!"Body" := by decide
+
 /-! ## Client -/
 
 /-- **client_headers (SOAP transport)**: `content-type` is `text/xml` whatever the
